@@ -47,13 +47,13 @@ def units(tier):
             pts = lit + tok[::step]
         for (j, o) in pts:
             for amp in (True, False):
-                for var in ("plain", "trail", "blank", "comment", "both"):
+                for var in ("plain", "trail", "blank", "comment", "both", "semi", "semi_trail"):
                     if q and var == "both":
                         continue
                     rot += 1
                     if q and var in ("blank", "comment") and rot % 2:
                         continue
-                    sym = "com" if var in ("trail", "comment", "both") else (holes[rot % len(holes)] if holes else None)
+                    sym = "com" if var in ("trail", "comment", "both", "semi_trail") else (holes[rot % len(holes)] if holes else None)
                     us.append(dict(h="items", raw=raw, j=j, o=o, amp=amp, var=var, sym=sym, ic=bool(rot % 3 == 0), cost=1))
     for k, src in enumerate(STREAMS):
         for n in ((4, 6) if q else (4, 6, 8)):
@@ -90,7 +90,7 @@ def items(ctx):
     line = G.fill(raw, vals)
     trail = None
     fillers = []
-    if p["var"] in ("trail", "both"):
+    if p["var"] in ("trail", "both", "semi_trail"):
         trail = ctx.chars("tc", 2, "print") if sym == "com" else "tc"
     if p["var"] in ("blank", "both"):
         fillers.append("")
@@ -101,6 +101,13 @@ def items(ctx):
         ctx.check(True, "layout not applicable on this path")
         return
     phys, kind = lay
+    semi = p["var"] in ("semi", "semi_trail")
+    last_comment = None
+    if semi:
+        phys[-1] = phys[-1] + " ; z = 3"
+    if p["var"] in ("trail", "both", "semi_trail"):
+        last_comment = "! end"
+        phys[-1] = phys[-1] + " " + last_comment
     src = "\n".join(["x = 1"] + phys + ["y = 2"]) + "\n"
     ctx.observe("src", src)
     got = [_describe(it) for it in FortranStringReader(src, ignore_comments=p["ic"])]
@@ -118,12 +125,16 @@ def items(ctx):
     if not ((l1 == label) and ((n1 is None) == (name is None)) and (n1 is None or (len(n1) == len(name) and n1 == name))):
         tag = " [label/construct name split from the statement by the continuation]"
     want = [("L", "x=1", None, None, (1, 1)), ("L", LAY.squeeze(text), label, name, (2, 1 + n))]
+    if semi:
+        want.append(("L", "z=3", None, None, (2, 1 + n)))
     if not p["ic"]:
         if trail is not None:
             want.append(("C", "!" + trail, (2, 2)))
         for k, f in enumerate(fillers):
             if len(f) > 0:
                 want.append(("C", f.strip(), (3 + k, 3 + k)))
+        if last_comment is not None:
+            want.append(("C", last_comment, (1 + n, 1 + n)))
     want.append(("L", "y=2", None, None, (2 + n, 2 + n)))
     ctx.check(len(got) == len(want), "reader yields %s items than the source has statements and comments" % ("more" if len(got) > len(want) else "fewer"))
     if len(got) != len(want):
@@ -137,7 +148,10 @@ def items(ctx):
             ctx.check((gc == wc) if len(gc) == len(wc) else False, "comment text changed")
             ctx.check(g[2] == w[2], "comment span wrong")
         else:
-            ctx.check((g[1] == w[1]) if len(g[1]) == len(w[1]) else False, "statement text not joined correctly (" + kind + " split)" + tag)
+            g1, w1 = (g[1].lower(), w[1].lower()) if semi else (g[1], w[1])
+            ctx.check((g1 == w1) if len(g1) == len(w1) else False, "statement text not joined correctly (" + kind + " split)" + tag)
+            if semi:
+                ctx.check((g[1] == w[1]) if len(g[1]) == len(w[1]) else False, "statement text changes letter case when the logical line contains ';'" + tag)
             ctx.check(g[2] == w[2], "label not extracted" + tag)
             ctx.check((g[3] == w[3]) if (g[3] is None) == (w[3] is None) else False, "construct name not extracted" + tag)
             ctx.check(g[4] == w[4], "line span wrong")
